@@ -850,28 +850,48 @@ func ruleR06e(c *Ctx) {
 		return
 	}
 	nStmt := 0
+	// the literal, the literals nested in it, and the helpers of the package they call (statement preparation, row
+	// encoding, final flush), each instruction with the binding of helper parameters to the caller's values
+	var flat []flatIns
 	for _, fn := range withLiterals(lit) {
-		for _, b := range fn.Blocks {
-			for _, ins := range b.Instrs {
-				call, ok := ins.(*ssa.Call)
-				if !ok {
-					continue
-				}
-				n := calleeFullName(call)
-				if !isDBCall(n) {
-					continue
-				}
-				nStmt++
-				k := "InsertLogs:" + shortCallee(n)
-				// receiver: tx parameter or a statement prepared on it
-				if n == "(github.com/uptrace/bun.Tx).Prepare" || n == "(github.com/uptrace/bun.Tx).PrepareContext" {
-					onTx := call.Call.Args[0] == ssa.Value(lit.Params[0]) || rootBase(call.Call.Args[0]) == ssa.Value(lit.Params[0])
-					c.check(onTx, rule, k+":on-tx", call.Pos(), "prepared on the transaction handle", "the COPY statement is not prepared on the transaction handle passed by withTransaction")
-				}
-				// error discipline: the error result must be tested or returned
-				c.check(errorIsUsed(call), rule, k+":error-propagated", call.Pos(), "its error is tested/returned", "the error of "+shortCallee(n)+" is dropped: a failing insert would be reported as success and the write acknowledged")
-			}
+		if fn == lit {
+			flat = append(flat, flattenCalls(fn, pkgLedgerstore, 2)...)
+		} else {
+			flat = append(flat, flattenCalls(fn, pkgLedgerstore, 2)...)
 		}
+	}
+	seenIns := map[ssa.Instruction]bool{}
+	for _, fi := range flat {
+		call, ok := fi.ins.(*ssa.Call)
+		if !ok || seenIns[fi.ins] {
+			continue
+		}
+		seenIns[fi.ins] = true
+		n := calleeFullName(call)
+		if !isDBCall(n) {
+			// a helper of the package that reports an error: its error must be used as well
+			if g := staticCallee(call); g != nil && fnPkgPath(origin(g)) == pkgLedgerstore && len(g.Blocks) > 0 && g != withTx {
+				if rs := g.Signature.Results(); rs.Len() > 0 && isErrorType(rs.At(rs.Len()-1).Type()) {
+					c.check(errorIsUsed(call), rule, "InsertLogs:"+g.Name()+":error-propagated", call.Pos(), "its error is tested/returned", "the error of "+g.Name()+" is dropped: a failing insert would be reported as success and the write acknowledged")
+				}
+			}
+			continue
+		}
+		nStmt++
+		k := "InsertLogs:" + shortCallee(n)
+		// receiver: tx parameter or a statement prepared on it
+		if n == "(github.com/uptrace/bun.Tx).Prepare" || n == "(github.com/uptrace/bun.Tx).PrepareContext" {
+			onTx := false
+			for _, r := range rootsEnv(call.Call.Args[0], fi.env, pkgLedgerstore) {
+				if r.v == ssa.Value(lit.Params[0]) {
+					onTx = true
+				}
+			}
+			onTx = onTx || call.Call.Args[0] == ssa.Value(lit.Params[0]) || rootBase(call.Call.Args[0]) == ssa.Value(lit.Params[0])
+			c.check(onTx, rule, k+":on-tx", call.Pos(), "prepared on the transaction handle", "the COPY statement is not prepared on the transaction handle passed by withTransaction")
+		}
+		// error discipline: the error result must be tested or returned
+		c.check(errorIsUsed(call), rule, k+":error-propagated", call.Pos(), "its error is tested/returned", "the error of "+shortCallee(n)+" is dropped: a failing insert would be reported as success and the write acknowledged")
 	}
 	if nStmt < 3 {
 		c.undecided(rule, "floor:statements", lit.Pos(), fmt.Sprintf("expected Prepare/Exec/Close in InsertLogs, found %d database calls", nStmt))
